@@ -293,12 +293,16 @@ func genProbes(r *common.Rng, rules []Rule, o *common.Options) []string {
 			probes = append(probes, s)
 		}
 	}
-	if o.Thorough() || o.Search {
+	if (o.Thorough() || o.Search) && r.Chance(1, 8) { // every name of up to 4 labels
 		for _, n := range allNames {
 			add(n)
 		}
 	} else {
-		for i := 0; i < 30; i++ {
+		n := 30
+		if o.Thorough() {
+			n = 60
+		}
+		for i := 0; i < n; i++ {
 			add(common.Pick(r, allNames))
 		}
 	}
@@ -1022,7 +1026,7 @@ func domainsetEngine() engine {
 			}
 			return domainEval(cases, d, o, rp)
 		},
-		budget:   func(o *common.Options) int { return o.Budget(1200, 40000) },
+		budget:   func(o *common.Options) int { return o.Budget(1200, 8000) },
 		batch:    100,
 		directed: domainDirected,
 	}
